@@ -24,6 +24,14 @@ def errs_empty_refine(cond, branch, st):
     return None
 
 
+# reviewed sites that bind an error list and do not use it (one reason each)
+R6_EXCEPTIONS = {
+    'gen_set_with_length_type': 'the failure is the constant evaluation of a set length: the type falls back to an erased length, nothing about the program is wrong',
+    'lower_var_def': 'the type specification is instantiated again when the variable is assigned and its errors are reported there (`x: UndefT = 1` is rejected)',
+    'lower_redef': 'an assignment whose target is not found is turned into a definition: the failed look-up is the expected case',
+}
+
+
 def run(chk):
     fx = F.Facts()
     chk.rule('C05-R1', 'a stage returns its Ok artifact only on the true edge of `self.errs.is_empty()`: GenericASTLowerer::lower, SideEffectChecker::check, OwnershipChecker::check')
@@ -113,6 +121,42 @@ def run(chk):
             chk.ok('C05-R3', where, sample='%s: build..()? then emit' % where)
     chk.floor('functions calling emit', emits, 3)
     r4(chk, fx)
+    # ---- R6: no pattern throws the error list of a lowering step away
+    chk.rule('C05-R6', 'no pattern in the lowerer (lower.rs, declare.rs) matches the Err of a fallible lowering step with a wildcard in the place of the error list — '
+                       '`Err(_)`, `Err((Some(x), _))` — : the partially lowered node it keeps has type Failure, which is compatible with everything, so the dropped errors are '
+                       'the only trace of a definite static error')
+    nerr = 0
+    for file6 in ('crates/erg_compiler/lower.rs', 'crates/erg_compiler/declare.rs'):
+        for f6 in fx.file(file6)['fns']:
+            for n6 in T.walk(f6['body']):
+                if n6.get('k') == 'PTupleStruct' and n6['d'].endswith('Result::Err') and n6.get('p'):
+                    q = n6['p'][0]
+                    last = q['p'][-1] if q.get('k') == 'PTuple' and q.get('p') else q
+                    nerr += 1
+                    unused = False
+                    if last.get('k') == 'Bind':
+                        holder = None
+                        for m6 in T.walk(f6['body']):
+                            if m6.get('k') == 'Match':
+                                for a6 in m6['arms']:
+                                    if any(x is n6 for x in T.walk(a6['pat'])):
+                                        holder = a6
+                        if holder is not None and not any(x.get('k') == 'Local' and x['n'] == last['n'] for x in T.walk(holder['b'])):
+                            unused = True
+                    fshort = T.norm(f6['path']).split('::')[-1]
+                    if unused and fshort in R6_EXCEPTIONS:
+                        chk.ok('C05-R6', ('exception', fshort))
+                        chk.notes.append({'exception': '%s ignores `%s`: %s' % (fshort, last['n'], R6_EXCEPTIONS[fshort])})
+                    elif unused:
+                        chk.bad('C05-R6', T.norm(f6['path']), 'err-unused:%s' % last['n'], '%s binds the error list of a lowering step as `%s` and never uses it: the errors are dropped'
+                                % (T.norm(f6['path']), last['n']), file6, f6['line'])
+                    elif last.get('k') == 'Wild':
+                        chk.bad('C05-R6', T.norm(f6['path']), 'err-wildcard', '%s matches `Err(%s)`: the errors of that lowering step are discarded while its partial result is kept — a '
+                                'type / name / arity error in that position is neither reported nor does it stop the compilation' % (T.norm(f6['path']), T.show(q)[:40] if 'k' in q else '..'),
+                                file6, f6['line'])
+                    else:
+                        chk.ok('C05-R6', (T.norm(f6['path']), nerr))
+    chk.floor('Err patterns in the lowerer', nerr, 100)
     return ('Dominance rules over the structured HIR of the pipeline functions. That the checker *detects* each definite error at every nesting depth is behaviour of the type checker and is not decided.'), {}
 
 
